@@ -232,7 +232,7 @@ def run(tier, seed):
             # gathering runs with a STUN server but nothing to discover (shared with C20): completion announced exactly once
             from checks import C20 as G
             for r in simlib.run_parallel(G.edge_scenario, [(exe, seed * 100000 + i, tier) for i in range(6 if tier == "quick" else 40)]) + \
-                    simlib.run_parallel(G.two_stream_scenario, [(exe, seed * 100000 + i, tier) for i in range(8 if tier == "quick" else 60)]) + \
+                    simlib.run_parallel(G.two_stream_scenario, [(exe, seed * 100000 + i, tier) for i in range(16 if tier == "quick" else 120)]) + \
                     simlib.run_parallel(G.late_relay_scenario, [(exe, seed * 100000 + i, tier) for i in range(6 if tier == "quick" else 40)]):
                 for kind, what in r["bad"]:
                     ofail.append({"why": f"gathering-{kind}: {what}", "session": r["script"]})
